@@ -41,8 +41,11 @@ def body_length(t, b, mode):
 class Concrete:
     """Concrete bytes of one client stream + the monotone map abstract offset -> byte offset."""
 
-    def __init__(self, pkts, mode, content_seed):
+    def __init__(self, pkts, mode, content_seed, rfu=None):
+        """rfu: {packet index: bits} ORed into the 16-bit length field of that packet on the wire (reserved bits of the
+        ISO Data_Total_Length) without changing the body"""
         rng = random.Random(f"{content_seed}/{mode}/{pkts!r}")
+        rfu = rfu or {}
         self.pkts = pkts
         self.mode = mode
         self.packets = []  # concrete packets (with type byte)
@@ -56,7 +59,7 @@ class Concrete:
             head += rng.randbytes(HDR[t] - (2 if t in LEN16 else 1))
             if t == "iso":
                 head[2] &= 0x3F  # handle is 12 bits + PB/TS flags; keep it plausible
-            head += L.to_bytes(2 if t in LEN16 else 1, "little")
+            head += (L | rfu.get(idx, 0)).to_bytes(2 if t in LEN16 else 1, "little")
             body = rng.randbytes(L)
             pkt = bytes(head) + body
             base = len(buf)
